@@ -34,12 +34,16 @@ SPEC = dict(
         "DNS/SRV address lists and the TryNext branch of _q_socketDisconnected are not exercised (explicit host/port) and not modelled",
         "bindAvail/smAvail/csiAvail are not reset per connection by the code; they are overwritten by the next features element before use "
         "(read by inspection and confirmed by the correspondence runs, not a theorem)",
-        "'next attempt succeeds' is proved for four conforming flows (SASL+bind, STARTTLS+SASL+bind, SASL2+bind2+SM, legacy XEP-0078) after ANY "
-        "history; the resumption flows and SCRAM are covered by the correspondence/oracle runs only",
+        "'next attempt succeeds' is ONE theorem over the type Flow of conforming scripts (SASL PLAIN, SCRAM incl. server signature, SASL2+bind2, "
+        "SASL2+FAST token, legacy; with/without STARTTLS; classic bind + <enable/>; <resume/> accepted; <resume/> refused then bind + <enable/>; "
+        "see-other-host then full flow) after ANY history, with 'connected exactly once, by the last element, nothing reported at any cut point'",
         "'connected at most once per connection' needs one conformance hypothesis: the server sends neither a stream header nor features into an "
         "established session (without it the property is false: openSession is not guarded, its Q_ASSERT is compiled out in release builds)",
-        "'isConnected() means a session was established on this connection' holds for every history; that the session is also AUTHENTICATED "
-        "depends on the server demanding authentication and is checked by the oracle on conforming scripts only",
+        "'isConnected() means a session was established on this connection' holds for every history; 'isConnected() implies authenticated' is "
+        "proved under the named hypothesis demandsAuth (features received while unauthenticated always lead into STARTTLS or an authentication "
+        "exchange the configuration uses); an example shows the hypothesis is necessary",
+        "bindAvail/smAvail are read only by the bind / resume listeners, which are entered only by the features handler that has just written "
+        "them (argument by inspection of the model, not a theorem); csiAvail IS used stale by a legacy login - recorded finding",
     ],
     level_text="Theorems quantified over every history (all event scripts of any length): the cut leaves disconnected/no session/not "
                "authenticated with exactly one disconnected signal; outstanding requests are finished unless resumable; EVERY negotiation "
